@@ -344,6 +344,9 @@ def gen_stress(rng, tier):
             upp = rng.choice([40, 150, 400] if quick else [40, 150, 400, 1000])
             leave = rng.choice([0, 0, 5, 17])
             sc.append("S %s %s %d %d %d %d %d %d %d" % (k, a, np_, nc, upp, rounds, leave, mode, rng.randrange(1, 10**6)))
+    # batch atomicity (mode 16): push_threads / pop_threads are single queue operations
+    for (k, a, np_, nc) in combos:
+        sc.append("S %s %s %d %d %d %d 0 16 %d" % (k, a, np_, nc, rng.choice([40, 160, 400]), rounds, rng.randrange(1, 10**6)))
     return sc
 
 
